@@ -1215,3 +1215,127 @@ def truth_protocol(run, model, rule="C07.truth-protocol"):
                     bad = (r.stmt, "`%s` is returned as the truth value without bool(...): for a falsy value that is not False (0, '', None, an empty container) the truth test of the stand-in raises TypeError, e.g. `all(x for x in xs) and len(xs) > 0` with xs=[0]" % show(a, 50))
         run.check(bad is None, rule, "%s.%s.__bool__" % (fi.module.name, fi.cls.name), "returns a bool by construction", bad[1] if bad else "", fi.loc(bad[0]) if bad else fi.loc(), None, first_line(bad[0]) if bad else None)
     return count
+
+
+def none_is_a_value(run, model, rule="C07.none-is-a-value"):
+    """``visit_Name`` answers "unknown" (PLACEHOLDER) only for a name that is not bound at all.
+
+    A variable whose value is ``None`` is a known value.  Taking it for the internal "unknown" marker makes ``and`` /
+    ``or`` / comparison chains lose their laziness (after an unknown operand the remaining operands are visited
+    regardless): ``lambda x, ys: x is not None and ys[0] > 0`` with ``x=None, ys=[]`` then fails inside message
+    generation, and the enclosing expressions of the name are silently left out of the message."""
+    fi = model.method("_recompute", "Visitor", "visit_Name")
+    flow = get_flow(model, fi)
+    run.saw(flow)
+    gg = GuardGraph(flow)
+    PH = ("global", "_recompute", "PLACEHOLDER")
+    bound = ("op", "cmp:In", (("attr", NODE, "id"), ("attr", ("param", "self"), "_name_to_value")))
+    rets = [n for n in flow.cfg.nodes if n.kind == "return" and n.ast is not None and strip_sites(flow.term(n.ast, n)) == PH]
+    if not rets:
+        raise AnalysisError("%s: no `return PLACEHOLDER` found" % fi.qual)
+    for n in rets:
+        atoms = [a for (nid, k), (kn, ats) in gg.edge_facts.items() for a, pol in kn if strip_sites(a) == bound]
+        ok = any(gg.necessary([flow.cfg.entry], [n.id], (a, False)) for a in atoms)
+        # ... or the value read IS the stored PLACEHOLDER (a comprehension target bound to it): handing it on is right
+        is_ph = [a for (nid, k), (kn, ats) in gg.edge_facts.items() for a, pol in kn if strip_sites(a)[0] == "op" and strip_sites(a)[1] == "cmp:Is" and strip_sites(a)[2][1] == PH]
+        ok = ok or any(gg.necessary([flow.cfg.entry], [n.id], (a, True)) for a in is_ph)
+        run.check(ok, rule, "%s:return@%d" % (fi.qual, rets.index(n)), "the unknown marker is returned only for a name that no table binds", "`return PLACEHOLDER` is reachable for a name that IS bound (to None): a None-valued argument is taken for an unknown value, so `x is not None and ys[0] > 0` evaluates `ys[0]` while the message is built, and `x was None` never appears", fi.loc(n), None, first_line(n.stmt))
+
+
+def _placeholder_true(t):
+    """The mirror of _placeholder_false: atoms about PLACEHOLDER on the path where the value just visited is unknown."""
+    v = _placeholder_false(t)
+    if v is None:
+        return None
+    ts = strip_sites(t)
+    if ts == ("const", "False"):
+        return False
+    return not v
+
+
+def unknown_stops(run, model, rule="C07.unknown-stops"):
+    """Once an operand of ``and`` / ``or`` or of a comparison chain is unknown (PLACEHOLDER), nothing further of that
+    operation is visited -- except the first comparator of a comparison, which Python always evaluates.
+
+    Whether Python evaluates the remaining operands depends on the unknown value; they may be defined only when it
+    holds (``all(x > 0 and ys[0] > x for x in xs)``: inside the quantifier ``x`` is unknown to the re-evaluator).
+    Visiting them "to collect more values" runs sub-expressions Python skipped."""
+    # ---- and / or
+    fi = model.method("_recompute", "Visitor", "visit_BoolOp")
+    flow = get_flow(model, fi)
+    run.saw(flow)
+    heads = [h for h in flow.cfg.nodes if h.kind == "next" and any(p.kind == "iter" and any(s_ == ("attr", NODE, "values") for s_ in subterms(strip_sites(flow.term(p.ast, p)))) for k, p in h.pred)]
+    if len(heads) != 1:
+        raise AnalysisError("%s: the loop over the operands was not found" % fi.qual)
+    head = heads[0]
+    start = [t for k, t in head.succ if k == "T"][0]
+    after = set(t.id for k, t in head.succ if k == "F")
+    ps = tables.paths(flow, start, {head.id} | after, stop_at_loops=True)
+
+    def ev(t):
+        ts = strip_sites(t)
+        if _isinstance_op(ts, ("attr", NODE, "op")) is not None:
+            return None
+        return _placeholder_true(t)
+
+    feas = [p for p in ps if tables.feasible(p, ev) and not (p.outcome and p.outcome[0] == "raise")]
+    goes_on = [p for p in feas if p.nodes and p.nodes[-1].id == head.id]
+    run.check(bool(feas) and not goes_on, rule, fi.qual, "an unknown operand ends the visit of the operands", "after an operand that is unknown (PLACEHOLDER) the loop goes on to visit the remaining operands: Python may never evaluate them (they may be defined only if the unknown operand holds), so message generation can fail where the condition itself did not", fi.loc(goes_on[0].nodes[-2] if goes_on and len(goes_on[0].nodes) > 1 else head), None, first_line(head.stmt))
+    # ---- comparison chains
+    fi = model.method("_recompute", "Visitor", "visit_Compare")
+    flow = get_flow(model, fi)
+    run.saw(flow)
+    heads = [n for n in flow.cfg.nodes if n.kind == "next"]
+    if len(heads) != 1:
+        raise AnalysisError("%s: the loop over the comparators was not found" % fi.qual)
+    head = heads[0]
+    start = [t for k, t in head.succ if k == "T"][0]
+    after = set(t.id for k, t in head.succ if k == "F")
+    ps = tables.paths(flow, start, {head.id} | after, stop_at_loops=True)
+    idx_terms = set()
+    for d in flow.node_defs.get(head.id, []):
+        t = strip_sites(flow.def_term(d))
+        if show(t).endswith("[0]") and "enumerate" in show(t):
+            idx_terms.add(t)
+
+    def ev2(t):
+        ts = strip_sites(t)
+        # a later step of the chain (i > 0) in which an operand is already unknown
+        if ts[0] == "op" and ts[1].startswith("cmp:") and len(ts[2]) == 2 and ts[2][0] in idx_terms and ts[2][1] == ("const", "0"):
+            return {"cmp:Gt": True, "cmp:NotEq": True, "cmp:GtE": True, "cmp:Eq": False, "cmp:LtE": False, "cmp:Lt": False}.get(ts[1])
+        if ts[0] == "phi" and _is_placeholder_flag(ts):
+            return True
+        if ts[0] == "call" and ts[1] == ("builtin", "isinstance"):
+            return None
+        return None
+
+    feas = [p for p in ps if tables.feasible(p, ev2) and not (p.outcome and p.outcome[0] == "raise")]
+    visiting = [p for p in feas if any(_visit_of(ct) is not None for ct, n in p.calls)]
+    if not idx_terms:
+        run.undecided(rule, fi.qual, "the position of the step in the chain (enumerate index) was not recognised")
+    else:
+        run.check(bool(feas) and not visiting, rule, fi.qual, "with an operand unknown, no comparator after the first one is visited", "in a later step of a comparison chain the comparator is visited although an operand is already unknown (PLACEHOLDER): Python evaluates it only if the preceding comparisons hold, which is not known -- `all(lo < x < ys[0] for x in xs)` then fails inside message generation", fi.loc(head), None, first_line(head.stmt))
+
+
+def placeholder_not_a_value(run, model, rule="C06.placeholder-not-shown"):
+    """The internal "unknown" marker never becomes a value of the message: ``visit_Name`` records what it read from the
+    name table only when that is not PLACEHOLDER (comprehension targets are bound to it in the table).  Otherwise a
+    target that shadows an argument is reported as ``n was <Placeholder>``."""
+    fi = model.method("_recompute", "Visitor", "visit_Name")
+    flow = get_flow(model, fi)
+    run.saw(flow)
+    gg = GuardGraph(flow)
+    PH = ("global", "_recompute", "PLACEHOLDER")
+    rv = ("attr", ("param", "self"), "recomputed_values")
+    stores = [n for n in flow.cfg.nodes if n.kind == "stmt" and isinstance(n.ast, ast.Assign) and isinstance(n.ast.targets[0], ast.Subscript) and strip_sites(flow.term(n.ast.targets[0].value, n)) == rv]
+    if not stores:
+        raise AnalysisError("%s: no store into recomputed_values found" % fi.qual)
+    for st in stores:
+        val = strip_sites(flow.term(st.ast.value, st))
+        reads_table = any(s_[0] == "idx" and s_[1] == ("attr", ("param", "self"), "_name_to_value") for s_ in subterms(val))
+        if not reads_table:
+            run.ok(rule, "%s:store@%d" % (fi.qual, stores.index(st)), "the value recorded does not come from the name table", fi.loc(st))
+            continue
+        atoms = [a for (nid, k), (kn, ats) in gg.edge_facts.items() for a, pol in kn if strip_sites(a)[0] == "op" and strip_sites(a)[1] == "cmp:Is" and strip_sites(a)[2][1] == PH and strip_sites(a)[2][0] == val]
+        ok = any(gg.necessary([flow.cfg.entry], [st.id], (a, False)) for a in atoms)
+        run.check(ok, rule, "%s:store@%d" % (fi.qual, stores.index(st)), "a name is recorded only when the table does not hold the unknown marker for it", "the value read from the name table is recorded without testing it for PLACEHOLDER: a comprehension target that shadows an argument is shown as `<name> was <Placeholder>`", fi.loc(st), None, first_line(st.stmt))
